@@ -1,18 +1,21 @@
 (* C15 — property theorems only.  Each is closed by [exact lemma]; Print Assumptions beneath.
-   consensus caller ref maxN m reads = the records Molecule.deduplicate_majority(max_N_span = maxN)
+   consensus caller qcaller ref maxN m reads = the records Molecule.deduplicate_majority(max_N_span = maxN)
    produces for the reads of a molecule (Model/C15.v; repaired behaviour, see fixes/C15-*.md).
-   caller = base caller of one column; the implementation's is [fun os => fst (call pc os)]. *)
+   caller = base caller of one column; the implementation's is [fun os => fst (call pc os)];
+   qcaller = phred quality of one column; the implementation's is [col_qual pc tt].
+   consensus_x .. ref chrom creads = the whole request (what is raised / skipped; reads with their contig).
+   The gen_* expressions are regenerated from the source on every run (coq/Gen/GenDedup.v). *)
 From Coq Require Import ZArith List Bool QArith.
 Import ListNotations.
-From SCMO Require Import Lib.PyInt Model.C15 Proofs.C15_a Proofs.C15_b Proofs.C15_c Proofs.C15_d Proofs.C15_e Proofs.C15 Proofs.C15_h.
+From SCMO Require Import Lib.PyInt Gen.GenDedup Model.C15 Proofs.C15_g Proofs.C15_a Proofs.C15_b Proofs.C15_c Proofs.C15_d Proofs.C15_e Proofs.C15 Proofs.C15_h Proofs.C15_q Proofs.C15_x.
 Open Scope Z_scope.
 
 (* the aligned (M) positions of all records, in order, are exactly the sorted distinct reference
    positions observed by the molecule's reads (M over covered runs, N over gaps); every CIGAR
    alternates M/N, starts and ends with M, has positive lengths and no N longer than max_N_span;
    the molecule is cut into 1 + (number of gaps longer than max_N_span) records *)
-Theorem C15_blocks_exact : forall caller ref maxN m reads recs,
-  consensus caller ref maxN m reads = Some recs ->
+Theorem C15_blocks_exact : forall caller qcaller ref maxN m reads recs,
+  consensus caller qcaller ref maxN m reads = Some recs ->
   flat_map rec_positions recs = covered reads /\
   inc (covered reads) /\
   (forall p, In p (covered reads) <-> exists o, In o (all_obs reads) /\ o_pos o = p) /\
@@ -22,8 +25,8 @@ Proof. exact blocks_exact. Qed.
 Print Assumptions C15_blocks_exact.
 
 (* no record at all exactly when no base of the molecule is aligned (outside the property) *)
-Theorem C15_no_coverage : forall caller ref maxN m reads,
-  consensus caller ref maxN m reads = None <-> all_obs reads = [].
+Theorem C15_no_coverage : forall caller qcaller ref maxN m reads,
+  consensus caller qcaller ref maxN m reads = None <-> all_obs reads = [].
 Proof. exact consensus_none. Qed.
 Print Assumptions C15_no_coverage.
 
@@ -34,8 +37,8 @@ Print Assumptions C15_runs_expand.
 
 (* |seq| = sum of the M lengths = number of aligned positions; the base at each position is the
    call for the observations at that position *)
-Theorem C15_lengths : forall caller ref maxN m reads recs r,
-  consensus caller ref maxN m reads = Some recs -> In r recs ->
+Theorem C15_lengths : forall caller qcaller ref maxN m reads recs r,
+  consensus caller qcaller ref maxN m reads = Some recs -> In r recs ->
   c_seq r = map (call_at caller (all_obs reads)) (rec_positions r) /\
   Z.of_nat (length (c_seq r)) = query_len (c_cigar r) /\
   length (c_seq r) = length (rec_positions r).
@@ -43,16 +46,16 @@ Proof. exact record_seq. Qed.
 Print Assumptions C15_lengths.
 
 (* a record starts at its first aligned position *)
-Theorem C15_start : forall caller ref maxN m reads recs r,
-  consensus caller ref maxN m reads = Some recs -> In r recs ->
+Theorem C15_start : forall caller qcaller ref maxN m reads recs r,
+  consensus caller qcaller ref maxN m reads = Some recs -> In r recs ->
   exists t, rec_positions r = c_start r :: t.
 Proof. exact record_start. Qed.
 Print Assumptions C15_start.
 
 (* the MD tag read column-wise against the record's sequence gives the (upper-cased) reference base
    of every aligned position *)
-Theorem C15_md : forall caller ref maxN m reads recs r,
-  consensus caller ref maxN m reads = Some recs -> In r recs ->
+Theorem C15_md : forall caller qcaller ref maxN m reads recs r,
+  consensus caller qcaller ref maxN m reads = Some recs -> In r recs ->
   (forall p, is_digit (ref p) = false) ->
   md_decode (c_md r) (c_seq r) = Some (map (fun p => upper (ref p)) (rec_positions r)).
 Proof. exact record_md. Qed.
@@ -69,7 +72,7 @@ Print Assumptions C15_md_roundtrip.
    round-trip on gapped coverage; the M-block stretch does *)
 Theorem C15_md_unrepaired_refuted :
   let ref := fun p => nth (Z.to_nat p) [65;65;65;67;67;67;71;71;71] 78 in
-  let p := mkPartial 0 (Some 9) [65;65;65;71;71;71] [CM 3; CN 3; CM 3] [(0,3);(6,9)] in
+  let p := mkPartial 0 (Some 9) [65;65;65;71;71;71] [30;30;30;30;30;30] [CM 3; CN 3; CM 3] [(0,3);(6,9)] in
   md_decode (md_old ref p) (pa_seq p) <> Some (map ref (expand (pa_start p) (pa_cigar p))) /\
   md_decode (md_tag (map ref (block_positions (pa_md p))) (pa_seq p)) (pa_seq p)
     = Some (map ref (expand (pa_start p) (pa_cigar p))).
@@ -138,8 +141,8 @@ Proof. intro l. exact (conj (most_common_perm l) (most_common_desc l)). Qed.
 Print Assumptions C15_most_common.
 
 (* the records carry the molecule's sample, UMI, site, fragment count (and strand, barcode) *)
-Theorem C15_tags : forall caller ref maxN m reads recs r,
-  consensus caller ref maxN m reads = Some recs -> In r recs ->
+Theorem C15_tags : forall caller qcaller ref maxN m reads recs r,
+  consensus caller qcaller ref maxN m reads = Some recs -> In r recs ->
   c_SM r = m_sample m /\ c_RX r = m_umi m /\ c_DS r = m_site m /\
   c_TF r = m_fragments m + m_overflow m /\
   c_reverse r = match m_strand m with Some b => b | None => false end /\
@@ -171,8 +174,8 @@ Print Assumptions C15_history_requests_independent.
 
 (* hence every answer in a history aligns exactly the positions covered by ALL reads held at that moment
    (later additions included, earlier answers irrelevant) and counts all fragments held *)
-Theorem C15_history_blocks : forall caller ref b pre st mx post recs,
-  nth_error (run_ops (answer caller ref b) (pre ++ Consensus mx :: post) st) (n_requests pre) = Some (Some recs) ->
+Theorem C15_history_blocks : forall caller qcaller ref b pre st mx post recs,
+  nth_error (run_ops (answer caller qcaller ref b) (pre ++ Consensus mx :: post) st) (n_requests pre) = Some (Some recs) ->
   flat_map rec_positions recs = covered (reads_of (st ++ flat_map added pre)) /\
   Forall (fun r => okM mx (c_cigar r)) recs /\
   forall r, In r recs -> c_TF r = Z.of_nat (length (st ++ flat_map added pre)) + 0.
@@ -184,18 +187,20 @@ Example C15_history_example :
   let f1 := mkFrag [65] 60 [mkRead 10 [(0,3)] [65;67;71] [30;30;30]] in
   let f2 := mkFrag [65] 60 [mkRead 10 [(0,2)] [65;67] [30;30]; mkRead 20 [(0,2)] [84;84] [30;30]] in
   map (option_map (map (fun r => (c_start r, c_cigar r, c_TF r))))
-      (run_ops (answer (fun os => fst (call_fast (pc_of [0; 2 ^ 59]) os)) (fun _ => 65) (mkBase [83] (Some 10) [66] (Some false)))
+      (run_ops (answer (fun os => fst (call_fast (pc_of [0; 2 ^ 59]) os)) (fun _ => 30) (fun _ => 65) (mkBase [83] (Some 10) [66] (Some false)))
                [Consensus None; AddFragment f2; Consensus None; Consensus (Some 3)] [f1])
   = [Some [(10, [CM 3], 1)]; Some [(10, [CM 3; CN 7; CM 2], 2)]; Some [(10, [CM 3], 2); (20, [CM 2], 2)]].
 Proof. vm_compute. reflexivity. Qed.
 Print Assumptions C15_history_example.
 
 (* tie of the executable model to the theorems: the model run by the correspondence check calls
-   bases with call_fast (no division by the total); for a table of probabilities in [0,1) that is
-   the same consensus as with phredscores_to_base_call's [call] *)
-Theorem C15_run_model_is_call : forall tab ref maxN m reads, valid_tab tab = true ->
-  consensus (fun os => fst (call_fast (pc_of tab) os)) ref maxN m reads =
-  consensus (fun os => fst (call (pc_of tab) os)) ref maxN m reads.
+   bases with call_fast (no division by the total) and computes qualities with col_qual_fast (one
+   integer division per column against the numerators of the thresholds); for a table of
+   probabilities in [0,1) that is the same consensus as with phredscores_to_base_call's [call] and
+   the quality [col_qual] over the thresholds T / 2^60 *)
+Theorem C15_run_model_is_call : forall tab ttab ref maxN m reads, valid_tab tab = true ->
+  consensus (fun os => fst (call_fast (pc_of tab) os)) (col_qual_fast (pc_of tab) ttab) ref maxN m reads =
+  consensus (fun os => fst (call (pc_of tab) os)) (col_qual (pc_of tab) (tt_of ttab)) ref maxN m reads.
 Proof. exact run_model_is_call. Qed.
 Print Assumptions C15_run_model_is_call.
 
@@ -211,8 +216,245 @@ Example C15_example :
                  mkRead 1 [(0,3)] [67;65;65] [30;30;20] ] in
   valid_tab tab = true /\
   option_map (map (fun r => (c_start r, c_cigar r, c_seq r, c_md r)))
-             (consensus (fun os => fst (call (pc_of tab) os)) ref (Some 3) m reads)
+             (consensus (fun os => fst (call (pc_of tab) os)) (col_qual (pc_of tab) []) ref (Some 3) m reads)
   = Some [ (1, [CM 3; CN 1; CM 2], [67;78;84;71;84], [49;71;49;67;71]);
            (11, [CM 3], [84;65;67], [51]) ].
 Proof. vm_compute. split; reflexivity. Qed.
 Print Assumptions C15_example.
+
+(* ================================================================== phred qualities of the consensus bases
+   tt = the thresholds of rint(-10 log10 x), tt_k = 10^(-(2k+1)/20), as rationals (the check passes 90 of
+   them, numerators over 2^60); phred tt p = quality of a call of probability p *)
+
+(* one quality per base: the quality of the column at that aligned position; as many as bases, as many
+   as the CIGAR consumes *)
+Theorem C15_qual_per_base : forall caller qcaller ref maxN m reads recs r,
+  consensus caller qcaller ref maxN m reads = Some recs -> In r recs ->
+  c_qual r = map (qual_at qcaller (all_obs reads)) (rec_positions r) /\
+  length (c_qual r) = length (c_seq r) /\
+  Z.of_nat (length (c_qual r)) = query_len (c_cigar r).
+Proof. exact record_qual. Qed.
+Print Assumptions C15_qual_per_base.
+
+(* range: 0 .. number of thresholds (90 for the table of the check: what the clip bounds 1e-9 / 1 - 1e-9 allow) *)
+Theorem C15_qual_range : forall tt p, 0 <= phred tt p <= Z.of_nat (length tt).
+Proof. exact phred_range. Qed.
+Print Assumptions C15_qual_range.
+
+(* the band law: with strictly decreasing thresholds the quality k says exactly that the clipped error
+   probability 1 - p lies below the first k thresholds and not below the others (rint(-10 log10 x) = k) *)
+Theorem C15_qual_band : forall tt p, qdec tt ->
+  let k := Z.to_nat (phred tt p) in let x := clipq (1 - p)%Q in
+  (forall t, In t (firstn k tt) -> (x < t)%Q) /\ (forall t, In t (skipn k tt) -> (t <= x)%Q).
+Proof. exact phred_band. Qed.
+Print Assumptions C15_qual_band.
+
+(* a more probable call never has a lower quality; equal probabilities have equal quality *)
+Theorem C15_qual_monotone : forall tt p p',
+  ((p <= p')%Q -> phred tt p <= phred tt p') /\ ((p == p')%Q -> phred tt p = phred tt p').
+Proof. intros tt p p'. exact (conj (phred_mono tt p p') (phred_comp tt p p')). Qed.
+Print Assumptions C15_qual_monotone.
+
+(* the ends of the scale: probability at most 1 - hi gives 0, at least 1 - lo gives the maximum *)
+Theorem C15_qual_ends : forall tt p,
+  ((p <= 1 - clip_hi)%Q -> Forall (fun t => t <= clip_hi)%Q tt -> phred tt p = 0) /\
+  ((1 - clip_lo <= p)%Q -> Forall (fun t => clip_lo < t)%Q tt -> phred tt p = Z.of_nat (length tt)).
+Proof. intros tt p. exact (conj (phred_zero tt p) (phred_full tt p)). Qed.
+Print Assumptions C15_qual_ends.
+
+(* N positions, 1: an undecidable column (two best likelihoods equal) is called N with quality 0;
+   every other column has a unique best base b and its quality is that of b's share of the total *)
+Theorem C15_qual_no_call : forall pc : Z -> Q, (forall q, (0 <= pc q /\ pc q < 1)%Q) ->
+  forall tt os, os <> [] -> Forall (fun t => t <= clip_hi)%Q tt ->
+  let l := likelihoods pc os in
+  (exists p, unique_max l (fst (call pc os)) p /\ (snd (call pc os) == p / qsum (map snd l))%Q) \/
+  (tied_max l /\ fst (call pc os) = baseN /\ col_qual pc tt os = 0).
+Proof. exact call_argmax_qual. Qed.
+Print Assumptions C15_qual_no_call.
+
+(* N positions, 2: a position no read observed reads the default ('N', 0): quality 0 *)
+Theorem C15_qual_uncovered : forall pc tt, Forall (fun t => t <= clip_hi)%Q tt ->
+  call_at (fun os => fst (call pc os)) [] 0 = baseN /\ col_qual pc tt [] = 0.
+Proof. intros pc tt H. exact (conj eq_refl (col_qual_nil pc tt H)). Qed.
+Print Assumptions C15_qual_uncovered.
+
+(* N positions, 3: a column in which every read shows N is called N with probability 1 *)
+Theorem C15_call_N_only : forall pc os, os <> [] -> Forall (fun o => fst o = baseN) os ->
+  fst (call pc os) = baseN /\ (snd (call pc os) == 1)%Q.
+Proof. exact call_allN. Qed.
+Print Assumptions C15_call_N_only.
+
+Example C15_call_N_only_example :
+  let pc := pc_of (map (fun q => if q =? 0 then 0 else 2 ^ 60 - 2 ^ (60 - q)) (zrange 0 42)) in
+  let os := [(78, 30); (78, 2)] in
+  fst (call pc os) = 78 /\ (snd (call pc os) == 1)%Q /\ col_qual pc (tt_of ttab90) os = 90.
+Proof. vm_compute. repeat split; reflexivity. Qed.
+Print Assumptions C15_call_N_only_example.
+
+(* the table of the check: a table accepted by valid_ttab is strictly decreasing and inside the clip
+   bounds, and the floor comparison the extracted model uses is the rational comparison *)
+Theorem C15_qual_table : forall ttab p,
+  phred_floor ttab p = phred (tt_of ttab) p /\
+  (valid_ttab ttab = true ->
+   qdec (tt_of ttab) /\ Forall (fun t => clip_lo < t /\ t <= clip_hi)%Q (tt_of ttab)).
+Proof. intros ttab p. exact (conj (phred_floor_correct ttab p) (valid_ttab_spec ttab)). Qed.
+Print Assumptions C15_qual_table.
+
+(* the 90 thresholds built into the model (the check passes no table of its own) are the exact ones:
+   T_k = floor(10^(-(2k+1)/20) * 2^60), the rounding threshold of rint(-10 log10 x) between k and k + 1 *)
+Theorem C15_ttab90_exact :
+  length ttab90 = 90%nat /\ forallb exact_threshold (combine (zrange 0 90) ttab90) = true /\ valid_ttab ttab90 = true.
+Proof. exact ttab90_exact. Qed.
+Print Assumptions C15_ttab90_exact.
+
+(* non-vacuity: five thresholds (decimal approximations of 10^(-1/20) .. 10^(-9/20)) and the toy table
+   pc q = 1 - 2^-q; one confident read: all five thresholds are above 1 - p; A against C at equal quality: N,
+   quality 0; A against a nearly as confident C: p ~ 1/2 -> 3; pc = 1/2: A and N tie -> 0 *)
+Example C15_qual_example :
+  let pc := pc_of (map (fun q => if q =? 0 then 0 else 2 ^ 60 - 2 ^ (60 - q)) (zrange 0 42)) in
+  let tt := [8913 # 10000; 7079 # 10000; 5623 # 10000; 4467 # 10000; 3548 # 10000]%Q in
+  qdec tt /\ Forall (fun t => clip_lo < t /\ t <= clip_hi)%Q tt /\
+  col_qual pc tt [(65, 30)] = 5 /\ col_qual pc tt [(65, 30); (67, 30)] = 0 /\
+  col_qual pc tt [(65, 30); (67, 20)] = 3 /\ col_qual pc tt [(65, 1)] = 0 /\ col_qual pc tt [] = 0 /\
+  phred tt (1 # 2) = 3 /\ phred tt (3 # 10) = 2 /\ phred tt 0 = 0 /\ phred tt 1 = 5.
+Proof.
+  cbn zeta. split; [cbn [qdec]; repeat split; reflexivity|].
+  split; [repeat (constructor; [split; [reflexivity|discriminate]|]); constructor|].
+  vm_compute. repeat split; reflexivity.
+Qed.
+Print Assumptions C15_qual_example.
+
+(* ================================================================== translator tie: the regenerated expressions *)
+
+(* get_CIGAR: a gap is start - previous end - 1 long, a block end - start + 1 (both inclusive), the
+   alignment start is the minimum of the block starts; the operation characters it emits are the two
+   (different) characters generate_partial_reads dispatches on *)
+Theorem C15_gen_cigar_shape : forall s e pe a,
+  gen_cigar_gap_len s pe = s - pe - 1 /\ gen_cigar_block_len s e = e - s + 1 /\
+  gen_alignment_start a s = Z.min a s /\
+  gen_cigar_gap_op = gen_branch_gap_op /\ gen_cigar_block_op = gen_branch_block_op /\
+  gen_branch_gap_op <> gen_branch_block_op.
+Proof.
+  intros s e pe a.
+  exact (conj (shape_gap_len s pe) (conj (shape_block_len s e) (conj (shape_alignment_start a s) shape_ops))).
+Qed.
+Print Assumptions C15_gen_cigar_shape.
+
+(* hence the (character, amount) list get_CIGAR returns drives generate_partial_reads exactly like the
+   M/N list of the model, for every caller *)
+Theorem C15_raw_cigar_drives : forall callf qualf maxN c s,
+  partial_reads_raw callf qualf maxN (map raw_of c) s = partial_reads callf qualf maxN c s.
+Proof. exact partial_reads_raw_of. Qed.
+Print Assumptions C15_raw_cigar_drives.
+
+(* generate_partial_reads: a gap starts a new record iff max_N_span is given and smaller than the gap;
+   a block is the first of its record iff no operation has been kept *)
+Theorem C15_gen_split_shape : forall h mx a n,
+  gen_split h mx a = h && (mx <? a) /\ gen_first_block n = (n =? 0).
+Proof. intros h mx a n. exact (conj (shape_split h mx a) (shape_first_block n)). Qed.
+Print Assumptions C15_gen_split_shape.
+
+(* create_MD_tag: match test and count flush *)
+Theorem C15_gen_md_shape : forall r b n,
+  gen_md_match r b = (r =? b) /\ gen_md_flush n = (0 <? n).
+Proof. intros r b n. exact (conj (shape_md_match r b) (shape_md_flush n)). Qed.
+Print Assumptions C15_gen_md_shape.
+
+(* phredscores_to_base_call: undecidable iff nothing ranked or the two best equal; ('N', 0) then and
+   for a position without observation; so the decision on a ranked list is the one of the theorems *)
+Theorem C15_gen_call_shape : forall n e l,
+  gen_no_call n e = (n =? 0) || ((2 <=? n) && e) /\
+  (gen_no_call_base = baseN /\ gen_no_call_prob = 0 /\ gen_default_base = baseN /\ gen_default_prob = 0) /\
+  decide l = match l with
+             | [] => (baseN, 0%Q)
+             | [(b, p)] => (b, p)
+             | (b, p) :: (_, p2) :: _ => if Qeq_bool p p2 then (baseN, 0%Q) else (b, p)
+             end.
+Proof. intros n e l. exact (conj (shape_no_call n e) (conj shape_no_call_result (decide_spec l))). Qed.
+Print Assumptions C15_gen_call_shape.
+
+(* write_tags_to_psuedoreads / extract_stretch_from_dict: the tag table holds SM (always, sample), DS (cut
+   site known, site), RX / BC / MI (UMI known; UMI, barcode, barcode ++ UMI), TF (always, fragments + overflow),
+   each once; the clip bounds satisfy 0 < lo < hi < 1 *)
+Theorem C15_gen_tags_shape : forall n o,
+  (has_tag tagSM 0 1 /\ has_tag tagDS 1 2 /\ has_tag tagRX 2 3 /\ has_tag tagBC 2 4 /\
+   has_tag tagMI 2 5 /\ has_tag tagTF 0 6) /\
+  gen_TF n o = n + o /\ (0 < clip_lo /\ clip_lo < clip_hi /\ clip_hi < 1)%Q.
+Proof. intros n o. exact (conj shape_tags (conj (shape_TF n o) shape_clip)). Qed.
+Print Assumptions C15_gen_tags_shape.
+
+(* ================================================================== the request as a whole *)
+
+(* a molecule without chromosome: no record and no exception, whatever else is missing *)
+Theorem C15_no_chromosome_skips : forall caller qcaller maxN m ref creads,
+  consensus_x caller qcaller ref maxN m None creads = Records None [].
+Proof. exact x_no_chromosome. Qed.
+Print Assumptions C15_no_chromosome_skips.
+
+(* a chromosome but not one aligned base: ValueError (np.concatenate of nothing), reference or not *)
+Theorem C15_no_coverage_raises : forall caller qcaller maxN m ref k creads,
+  all_obs (map snd creads) = [] ->
+  consensus_x caller qcaller ref maxN m (Some k) creads = RaiseNoCoverage.
+Proof. exact x_no_coverage. Qed.
+Print Assumptions C15_no_coverage_raises.
+
+(* aligned bases but no reference attached: AttributeError, and not a single record is returned *)
+Theorem C15_no_reference_raises : forall caller qcaller maxN m k creads,
+  all_obs (map snd creads) <> [] ->
+  consensus_x caller qcaller None maxN m (Some k) creads = RaiseNoReference.
+Proof. exact x_no_reference. Qed.
+Print Assumptions C15_no_reference_raises.
+
+(* the outcomes are exhaustive and exclusive; records exist exactly when chromosome, coverage and reference
+   are all there, and they are the records of [consensus] over all reads, on the molecule's chromosome *)
+Theorem C15_request_outcome : forall caller qcaller maxN m ref chrom creads,
+  match consensus_x caller qcaller ref maxN m chrom creads with
+  | Records None recs => chrom = None /\ recs = []
+  | Records (Some k) recs => chrom = Some k /\ all_obs (map snd creads) <> [] /\
+                             exists f, ref = Some f /\ consensus caller qcaller f maxN m (map snd creads) = Some recs
+  | RaiseNoCoverage => chrom <> None /\ all_obs (map snd creads) = []
+  | RaiseNoReference => chrom <> None /\ all_obs (map snd creads) <> [] /\ ref = None
+  end.
+Proof. exact x_outcome. Qed.
+Print Assumptions C15_request_outcome.
+
+(* one contig (every read that contributes an observation is on the molecule's chromosome): the records
+   align exactly the positions covered on that contig *)
+Theorem C15_single_contig_blocks : forall caller qcaller maxN m f k creads recs,
+  Forall (fun cr => fst cr = k \/ read_obs (snd cr) = []) creads ->
+  consensus_x caller qcaller (Some f) maxN m (Some k) creads = Records (Some k) recs ->
+  flat_map rec_positions recs = covered (reads_on k creads).
+Proof. exact x_single_contig. Qed.
+Print Assumptions C15_single_contig_blocks.
+
+(* FINDING (fixes/C15-D35): without that hypothesis the statement is refuted.  Reads on two contigs in one
+   molecule (a chimeric pair, add_molecule of a molecule on another contig) are pooled by position; the record
+   on contig 1 aligns 10..12, which only the read on contig 0 covers *)
+Theorem C15_multicontig_refuted :
+  let tab := map (fun q => if q =? 0 then 0 else 2 ^ 60 - 2 ^ (60 - q)) (zrange 0 42) in
+  let m := mkMeta [83] (Some [85]) None [66] 2 0 (Some false) [60; 60] in
+  let creads := [ (0, mkRead 10 [(0,3)] [65;65;65] [30;30;30]); (1, mkRead 20 [(0,3)] [67;67;67] [30;30;30]) ] in
+  exists recs,
+    consensus_x (fun os => fst (call (pc_of tab) os)) (col_qual (pc_of tab) []) (Some (fun _ => 67)) None m (Some 1) creads
+      = Records (Some 1) recs /\
+    flat_map rec_positions recs = [10; 11; 12; 20; 21; 22] /\
+    covered (reads_on 1 creads) = [20; 21; 22].
+Proof. exact x_multicontig_refuted. Qed.
+Print Assumptions C15_multicontig_refuted.
+
+(* non-vacuity: the same two reads on ONE contig with a reference (one record 3M7N3M), without a reference,
+   without coverage (unmapped read: empty CIGAR), without chromosome *)
+Example C15_request_example :
+  let tab := map (fun q => if q =? 0 then 0 else 2 ^ 60 - 2 ^ (60 - q)) (zrange 0 42) in
+  let m := mkMeta [83] (Some [85]) None [66] 2 0 (Some false) [60; 60] in
+  let c := fun os => fst (call (pc_of tab) os) in let q := col_qual (pc_of tab) [1 # 2]%Q in
+  let creads := [ (1, mkRead 10 [(0,3)] [65;65;65] [30;30;30]); (1, mkRead 20 [(0,3)] [67;67;67] [30;30;30]) ] in
+  match consensus_x c q (Some (fun _ => 67)) None m (Some 1) creads with
+  | Records (Some 1) [r] => c_cigar r = [CM 3; CN 7; CM 3] /\ c_qual r = [1;1;1;1;1;1] /\ c_md r = [67;67;67;51]
+  | _ => False
+  end /\
+  consensus_x c q None None m (Some 1) creads = RaiseNoReference /\
+  consensus_x c q None None m (Some 1) [(1, mkRead 10 [] [65;65;65] [30;30;30])] = RaiseNoCoverage /\
+  consensus_x c q None None m None creads = Records None [].
+Proof. vm_compute. repeat split; reflexivity. Qed.
+Print Assumptions C15_request_example.
